@@ -38,11 +38,16 @@ def scratch(prefix):
 
 
 def ensure_classes():
-    src = os.path.join(SPEC, "IEEE.java")
-    cls = os.path.join(CLASSES, "IEEE.class")
-    if not os.path.exists(cls) or os.path.getmtime(cls) < os.path.getmtime(src):
-        os.makedirs(CLASSES, exist_ok=True)
-        r = subprocess.run(["javac", "-cp", TLA_JAR, "-d", CLASSES, src],
+    """Compile every spec/*.java operator-override class that is newer than its .class file."""
+    import glob
+    os.makedirs(CLASSES, exist_ok=True)
+    stale = []
+    for src in glob.glob(os.path.join(SPEC, "*.java")):
+        cls = os.path.join(CLASSES, os.path.basename(src)[:-5] + ".class")
+        if not os.path.exists(cls) or os.path.getmtime(cls) < os.path.getmtime(src):
+            stale.append(src)
+    if stale:
+        r = subprocess.run(["javac", "-cp", TLA_JAR + os.pathsep + CLASSES, "-d", CLASSES] + stale,
                            capture_output=True, text=True)
         if r.returncode != 0:
             raise Machinery("javac failed: " + r.stderr)
